@@ -1,48 +1,245 @@
 /-
-C06, third clause, positive part: merging ACLs is monotone when no rule is `%global` and nothing can match in
-negated form.  (With `%global` rules or negated-form matches the clause is false of the code: F06a–c.)
-Statement fixed by Props/C06.lean.
+C06, third clause, positive part: merging ACLs is monotone when no rule is `%global` / ignore and nothing
+can match in negated form.  (With `%global` rules or negated-form matches the clause is false of the code:
+F06a–c in Props/C06.lean.)
+
+Vocabulary: `AclMergeDefs.lean`.  Proof structure:
+* `AclMergeDict.lean`    — well-formed compiled dictionaries, their denotation `InD` (set of rule-row paths),
+                           `mergeDicts` = union of denotations;
+* `AclMergeCompile.lean` — `compileAcl` of a plain text is well-formed and denotes the row paths of the text
+                           (`InDR`), hence `compileAcl [A] ⊆ compileAcl [A ++ B]`;
+* `AclMergeRev.lean`     — the reverse form of a rule not starting with the negation word is
+                           `<negation word> <row>` and matches only rows in negated form;
+* `AclMergeMatch.lean`   — one row against a good dictionary: only direct matches; the children rules are
+                           the union over all matching rules;
+* here                   — induction over the configuration tree.
 -/
-import AnnetModel.Spec.Acl
-import AnnetModel.Lemmas.Acl
+import AnnetModel.Lemmas.AclMergeDefs
+import AnnetModel.Lemmas.AclMergeCompile
+import AnnetModel.Lemmas.AclMergeMatch
+
+namespace Annet.Acl.Lemmas
+open Annet Annet.Acl Annet.Acl.Spec
+
+theorem noNegRuleL_iff (v : Vendor) (l : List RawRule) :
+    NoNegRuleL v l = true ↔ ∀ x ∈ l, NoNegRule v x = true := by
+  induction l with
+  | nil => simp [NoNegRuleL]
+  | cons x xs ih => simp [NoNegRuleL, ih]
+
+theorem noNegRule_inv {v : Vendor} {x : RawRule} (h : NoNegRule v x = true) :
+    (v.reverse ++ " ").toList.isPrefixOf (rawRow x).toList = false ∧ NoNegRuleL v (rawKids x) = true := by
+  match x, h with
+  | .mk row _ _ _ _ _ ch, h =>
+    simp only [NoNegRule, Bool.and_eq_true, Bool.not_eq_true'] at h
+    exact h
+
+theorem noNeg_inDR (v : Vendor) : ∀ (p : List String) (l : List RawRule), NoNegRuleL v l = true → InDR l p →
+    ∀ r ∈ p, (v.reverse ++ " ").toList.isPrefixOf r.toList = false := by
+  intro p
+  induction p with
+  | nil => intro _ _ _ r hr; cases hr
+  | cons r0 q ih =>
+    rintro l hl ⟨x, hx, hxr, hq⟩ r hr
+    obtain ⟨h1, h2⟩ := noNegRule_inv ((noNegRuleL_iff v l).1 hl x hx)
+    rcases List.mem_cons.1 hr with rfl | hr
+    · rw [← hxr]; exact h1
+    · exact ih _ h2 hq r hr
+
+/-! the inductive core: a good dictionary included in another good dictionary passes a sub-tree -/
+mutual
+  theorem mono_cfg (v : Vendor) (hw : plainWord v.reverse.toList = true) :
+      (t : Cfg) → (R1 R2 : Rules) → (path1 path2 : List String) → (ca cab : Cfg) →
+      GoodRules v R1 → GoodRules v R2 → (∀ p, InD R1.loc p → InD R2.loc p) → NoNegRow v t = true →
+      applyAcl v false false R1 path1 t = .ok ca → applyAcl v false false R2 path2 t = .ok cab → Sub ca cab
+    | .mk ks, R1, R2, path1, path2, ca, cab, g1, g2, hle, ht, h1, h2 => by
+      obtain ⟨ka, hka, rfl⟩ := (applyAcl_ok_iff ..).1 h1
+      obtain ⟨kab, hkab, rfl⟩ := (applyAcl_ok_iff ..).1 h2
+      rw [NoNegRow] at ht
+      exact Spec.Sub.mk (mono_list v hw ks R1 R2 path1 path2 ka kab g1 g2 hle ht hka hkab)
+  theorem mono_list (v : Vendor) (hw : plainWord v.reverse.toList = true) :
+      (ks : List (String × Cfg)) → (R1 R2 : Rules) → (path1 path2 : List String) →
+      (ka kab : List (String × Cfg)) →
+      GoodRules v R1 → GoodRules v R2 → (∀ p, InD R1.loc p → InD R2.loc p) → NoNegRowL v ks = true →
+      applyAclList v false false R1 path1 ks = .ok ka → applyAclList v false false R2 path2 ks = .ok kab →
+      SubL ka kab
+    | [], R1, R2, path1, path2, ka, kab, _, _, _, _, h1, _ => by
+      simp only [applyAclList, Except.ok.injEq] at h1
+      subst h1; exact SubL.nil _
+    | (row, ch) :: rest, R1, R2, path1, path2, ka, kab, g1, g2, hle, ht, h1, h2 => by
+      rw [NoNegRowL] at ht
+      simp only [Bool.and_eq_true, Bool.not_eq_true'] at ht
+      obtain ⟨⟨hrow, hch⟩, hrest⟩ := ht
+      rcases lenient_cons_inv h1 with ⟨_, _, hr1⟩ | ⟨m1, cr1, ch1, rest1, hm1, _, _, hch1, hrest1, rfl⟩
+      · rcases lenient_cons_inv h2 with ⟨_, _, hr2⟩ | ⟨m2, cr2, ch2, rest2, _, _, _, _, hrest2, rfl⟩
+        · exact mono_list v hw rest R1 R2 path1 path2 ka kab g1 g2 hle hrest hr1 hr2
+        · exact SubL.skip _ (mono_list v hw rest R1 R2 path1 path2 ka rest2 g1 g2 hle hrest hr1 hrest2)
+      · -- the row is matched under `R1`: it is matched under `R2`, with larger children rules
+        rcases matchRow_plain v hw row hrow R1 g1 _ hm1 with
+          ⟨hnone, _⟩ | ⟨m, cr, heq, _, hmem, hdm, gcr1, hD1⟩
+        · cases hnone
+        simp only [Option.some.injEq, Prod.mk.injEq] at heq
+        obtain ⟨rfl, rfl⟩ := heq
+        -- a counterpart of the matching rule in `R2`
+        obtain ⟨c1, hc1⟩ : ∃ c, m1.rule.children = some (c, []) := by
+          obtain ⟨_, _, c, hc, _⟩ := ((wfList_iff _).1 g1.2.1.1 _ hmem).inv
+          exact ⟨c, hc⟩
+        obtain ⟨y, hy, hyr, _⟩ := hle [m1.rule.row] (inD_of_mem hmem hc1 (p := []) trivial)
+        have hdy : dmatch v row y := dmatch_congr hyr.symm hdm
+        have key : ∀ res, matchRowToAcl v row R2 false = .ok res →
+            ∃ m2 cr2, res = some (m2, cr2) ∧ m2.isReverse = false ∧ GoodRules v cr2 ∧
+              ∀ p, InD cr1.loc p → InD cr2.loc p := by
+          intro res hres
+          rcases matchRow_plain v hw row hrow R2 g2 res hres with
+            ⟨_, hno⟩ | ⟨m2, cr2, rfl, hrev, _, _, gcr2, hD2⟩
+          · exact absurd hdy (hno y hy)
+          · refine ⟨m2, cr2, rfl, hrev, gcr2, fun p hp => ?_⟩
+            rw [hD2 p]
+            rcases (hD1 p).1 hp with h | ⟨x, hx, hdx, c, g, hc, hq⟩
+            · exact .inl h
+            · obtain ⟨y', hy', hyr', c', g', hc', hq'⟩ := hle (x.row :: p) (inD_of_mem hx hc hq)
+              exact .inr ⟨y', hy', dmatch_congr hyr'.symm hdx, c', g', hc', hq'⟩
+        rcases lenient_cons_inv h2 with ⟨_, hm2 | ⟨m2, cr2, hm2, hc2⟩, _⟩ |
+          ⟨m2, cr2, ch2, rest2, hm2, _, _, hch2, hrest2, rfl⟩
+        · obtain ⟨_, _, h, _⟩ := key _ hm2
+          cases h
+        · obtain ⟨m2', cr2', h, hrev, _⟩ := key _ hm2
+          simp only [Option.some.injEq, Prod.mk.injEq] at h
+          obtain ⟨rfl, rfl⟩ := h
+          rw [hrev] at hc2; simp at hc2
+        · obtain ⟨m2', cr2', h, _, gcr2, hle'⟩ := key _ hm2
+          simp only [Option.some.injEq, Prod.mk.injEq] at h
+          obtain ⟨rfl, rfl⟩ := h
+          exact SubL.keep row (mono_cfg v hw ch cr1 cr2 _ _ ch1 ch2 gcr1 gcr2 hle' hch hch1 hch2)
+            (mono_list v hw rest R1 R2 path1 path2 rest1 rest2 g1 g2 hle hrest hrest1 hrest2)
+end
+
+end Annet.Acl.Lemmas
 
 namespace Annet.Acl.Spec
-open Annet Annet.Acl
+open Annet Annet.Acl Annet.Acl.Lemmas
 
-mutual
-  /-- no `%global` and no ignore rule anywhere in a raw ACL tree -/
-  def PlainRaw : RawRule → Bool
-    | .mk _ ignore isGlobal _ _ _ children => !ignore && !isGlobal && PlainRawL children
-  def PlainRawL : List RawRule → Bool
-    | [] => true
-    | r :: rest => PlainRaw r && PlainRawL rest
-end
+/-- everything ACL `A` passes alone, the merged ACL `A ++ B` passes too (as an order-preserving sub-tree).
 
-mutual
-  /-- no rule row begins with the vendor's negation word -/
-  def NoNegRule (v : Vendor) : RawRule → Bool
-    | .mk row _ _ _ _ _ children => !((v.reverse ++ " ").toList.isPrefixOf row.toList) && NoNegRuleL v children
-  def NoNegRuleL (v : Vendor) : List RawRule → Bool
-    | [] => true
-    | r :: rest => NoNegRule v r && NoNegRuleL v rest
-end
-
-mutual
-  /-- no configuration row begins with the vendor's negation word -/
-  def NoNegRow (v : Vendor) : Cfg → Bool
-    | .mk ks => NoNegRowL v ks
-  def NoNegRowL (v : Vendor) : List (String × Cfg) → Bool
-    | [] => true
-    | (row, ch) :: rest => !((v.reverse ++ " ").toList.isPrefixOf row.toList) && NoNegRow v ch && NoNegRowL v rest
-end
-
-/-- everything ACL `A` passes alone, the merged ACL `A ++ B` passes too (as an order-preserving sub-tree) -/
+STATEMENT CHANGED with respect to the first draft (which is false, see the counterexamples below):
+* new hypothesis `hw`: the vendor's negation word is a plain literal word;
+* `NoNegRow` now excludes rows in *negated form* as the matcher sees them (`negForm`): after
+  `jun_activate` for Juniper, negation word compared ignoring ASCII case, followed by any whitespace
+  character — not only rows with the literal prefix `<word><blank>`. -/
 theorem merge_monotone_partial (v : Vendor) (A B : List RawRule) (t ca cab : Cfg)
+    (hw : plainWord v.reverse.toList = true)
     (hA : PlainRawL A = true) (hB : PlainRawL B = true)
     (hnA : NoNegRuleL v A = true) (hnB : NoNegRuleL v B = true) (ht : NoNegRow v t = true)
     (h1 : applyAcl v false false (compileAcl [A]) [] t = .ok ca)
     (h2 : applyAcl v false false (compileAcl [A ++ B]) [] t = .ok cab) :
     Sub ca cab := by
-  sorry
+  obtain ⟨a1, a2, a3⟩ := compileAcl_single_spec A hA
+  obtain ⟨b1, b2, b3⟩ := compileAcl_append_spec A B hA hB
+  have hnAB : NoNegRuleL v (A ++ B) = true := by
+    rw [noNegRuleL_iff] at hnA hnB ⊢
+    intro x hx
+    rcases List.mem_append.1 hx with hx | hx
+    · exact hnA x hx
+    · exact hnB x hx
+  have g1 : GoodRules v (compileAcl [A]) :=
+    ⟨a1, a2, fun p hp => noNeg_inDR v p A hnA ((a3 p).1 hp)⟩
+  have g2 : GoodRules v (compileAcl [A ++ B]) :=
+    ⟨b1, b2, fun p hp => noNeg_inDR v p (A ++ B) hnAB ((b3 p).1 hp)⟩
+  refine mono_cfg v hw t _ _ [] [] ca cab g1 g2 (fun p hp => ?_) ht h1 h2
+  exact (b3 p).2 (inDR_mono (fun x hx => List.mem_append_left _ hx) p ((a3 p).1 hp))
+
+
+/-! ### why the first draft of the statement had to change
+
+First draft: no `hw`, and `NoNegRow₀` (below) in place of `NoNegRow` — "no configuration row has the literal
+prefix `<negation word><blank>`".  Each example satisfies every hypothesis of that draft (`PlainRawL`,
+`NoNegRuleL`, `NoNegRow₀`, both runs succeed) and yet the row passed by `A` alone is dropped by `A ++ B`:
+the negated form of `B`'s `cant_delete` rule becomes the first match. -/
+namespace MergeDraft
+
+def resPaths (r : Except Err Cfg) : Option (List (List String)) :=
+  match r with
+  | .ok c => some c.paths
+  | .error _ => none
+
+mutual
+  def NoNegRow₀ (v : Vendor) : Cfg → Bool
+    | .mk ks => NoNegRowL₀ v ks
+  def NoNegRowL₀ (v : Vendor) : List (String × Cfg) → Bool
+    | [] => true
+    | (row, ch) :: rest => !((v.reverse ++ " ").toList.isPrefixOf row.toList) && NoNegRow₀ v ch && NoNegRowL₀ v rest
+end
+
+def draftHyps (v : Vendor) (A B : List RawRule) (t : Cfg) : Bool :=
+  PlainRawL A && PlainRawL B && NoNegRuleL v A && NoNegRuleL v B && NoNegRow₀ v t
+
+def A₀ : List RawRule := [.mk "~" false false [false] 0 ["g0"] []]
+
+/-- the row separates the negation word from the rest by a tab (any `\s+` is accepted by the pattern) -/
+example :
+    let B : List RawRule := [.mk "foo" false false [true] 2 ["g1"] []]
+    let t : Cfg := .mk [("undo\tfoo", .mk [])]
+    let v : Vendor := { reverse := "undo" }
+    draftHyps v A₀ B t = true ∧ plainWord v.reverse.toList = true ∧ NoNegRow v t = false ∧
+    resPaths (applyAcl v false false (compileAcl [A₀]) [] t) = some [["undo\tfoo"]] ∧
+    resPaths (applyAcl v false false (compileAcl [A₀ ++ B]) [] t) = some [] := by decide
+
+/-- a `(?i)` rule: its negated form is matched ignoring case -/
+example :
+    let B : List RawRule := [.mk "(?i)foo" false false [true] 2 ["g1"] []]
+    let t : Cfg := .mk [("UNDO foo", .mk [])]
+    let v : Vendor := { reverse := "undo" }
+    draftHyps v A₀ B t = true ∧ plainWord v.reverse.toList = true ∧ NoNegRow v t = false ∧
+    resPaths (applyAcl v false false (compileAcl [A₀]) [] t) = some [["UNDO foo"]] ∧
+    resPaths (applyAcl v false false (compileAcl [A₀ ++ B]) [] t) = some [] := by decide
+
+/-- Juniper: `inactive: ` is stripped from the row before matching -/
+example :
+    let B : List RawRule := [.mk "foo" false false [true] 2 ["g1"] []]
+    let t : Cfg := .mk [("inactive: delete foo", .mk [])]
+    let v : Vendor := { reverse := "delete", juniper := true }
+    draftHyps v A₀ B t = true ∧ plainWord v.reverse.toList = true ∧ NoNegRow v t = false ∧
+    resPaths (applyAcl v false false (compileAcl [A₀]) [] t) = some [["inactive: delete foo"]] ∧
+    resPaths (applyAcl v false false (compileAcl [A₀ ++ B]) [] t) = some [] := by decide
+
+/-- the negation word is a pattern token: the "negated form" `* foo` matches a row that does not contain
+the word at all (here even the new `NoNegRow` holds: `hw` is needed) -/
+example :
+    let B : List RawRule := [.mk "foo" false false [true] 2 ["g1"] []]
+    let t : Cfg := .mk [("x foo", .mk [])]
+    let v : Vendor := { reverse := "*" }
+    draftHyps v A₀ B t = true ∧ plainWord v.reverse.toList = false ∧ NoNegRow v t = true ∧
+    resPaths (applyAcl v false false (compileAcl [A₀]) [] t) = some [["x foo"]] ∧
+    resPaths (applyAcl v false false (compileAcl [A₀ ++ B]) [] t) = some [] := by decide
+
+/-- the negation word contains a blank (two tokens, any whitespace between them) -/
+example :
+    let B : List RawRule := [.mk "foo" false false [true] 2 ["g1"] []]
+    let t : Cfg := .mk [("a  b foo", .mk [])]
+    let v : Vendor := { reverse := "a b" }
+    draftHyps v A₀ B t = true ∧ plainWord v.reverse.toList = false ∧ NoNegRow v t = true ∧
+    resPaths (applyAcl v false false (compileAcl [A₀]) [] t) = some [["a  b foo"]] ∧
+    resPaths (applyAcl v false false (compileAcl [A₀ ++ B]) [] t) = some [] := by decide
+
+/-- Non-vacuity of `merge_monotone_partial`: nested rules on both sides, `interface *` occurs in both
+texts (merged by `_merge_toplevel`: parameters united, children concatenated); all hypotheses hold and
+both runs succeed. -/
+example :
+    let A : List RawRule := [.mk "interface *" false false [true] 0 ["g0"] [.mk "description ~" false false [false] 0 ["g0"] []],
+                             .mk "vlan *" false false [false] 0 ["g0"] []]
+    let B : List RawRule := [.mk "interface *" false false [false] 1 ["g1"] [.mk "mtu *" false false [false] 0 ["g1"] []],
+                             .mk "snmp ~" false false [false] 0 ["g1"] []]
+    let t : Cfg := .mk [("interface Eth1", .mk [("description x y", .mk []), ("mtu 9000", .mk []), ("shutdown", .mk [])]),
+                        ("snmp community c", .mk []), ("vlan 10", .mk []), ("undocumented", .mk [])]
+    let v : Vendor := { reverse := "undo" }
+    plainWord v.reverse.toList = true ∧ PlainRawL A = true ∧ PlainRawL B = true ∧
+    NoNegRuleL v A = true ∧ NoNegRuleL v B = true ∧ NoNegRow v t = true ∧
+    resPaths (applyAcl v false false (compileAcl [A]) [] t)
+      = some [["interface Eth1"], ["interface Eth1", "description x y"], ["vlan 10"]] ∧
+    resPaths (applyAcl v false false (compileAcl [A ++ B]) [] t)
+      = some [["interface Eth1"], ["interface Eth1", "description x y"], ["interface Eth1", "mtu 9000"],
+              ["snmp community c"], ["vlan 10"]] := by decide
+
+end MergeDraft
 
 end Annet.Acl.Spec
